@@ -90,6 +90,11 @@ inductive Fault
 regenerated fact `Generated.C08.aheadFixed`. -/
 structure Cfg where
   fixed : Bool
+  /-- shape of Replica's treatment of an answer that does not acknowledge the sent index (or carries an
+  error): `false` = the tree as it is ("TODO: need reset ack sequence?": statistics only, state stays
+  `ready`); `true` = the repair under evaluation: store ReplicatorFailureState so that the next IsReady
+  runs the handshake. Selected by the regenerated fact `Generated.C08.mismatchSetsFailure`. -/
+  mfail : Bool
   deriving Repr, DecidableEq
 
 /-- image of the leader partition directory (queue + both followers' groups) -/
@@ -259,30 +264,31 @@ inductive Out
   deriving Repr, DecidableEq
 
 /-- `remoteReplicator.Replica(idx, msg)` with the follower's handler inlined -/
-def replicaSend (s : St) (idx : Int) (m : Msg) (f : Fault) : St × Out :=
+def replicaSend (cfg : Cfg) (s : St) (idx : Int) (m : Msg) (f : Fault) : St × Out :=
   if s.stream ≠ .up ∨ f = .send then ({ s with chan := .failure }, .sendfail)
   else
     let (F', ackIdx) := replicaLog s.F idx m (decide (f = .put))   -- resp.ReplicaIndex = idx, resp.AckIndex = ackIdx
     let s := { s with F := F' }
     if f = .recv then ({ s with chan := .failure }, .recvfail)
     else if ackIdx = idx then (ackGroup s ackIdx, .acked)
+    else if cfg.mfail then ({ s with chan := .failure }, .mismatch)   -- repaired shape: force a handshake
     else ({ s with dz := true }, .mismatch)   -- state stays `ready`; ghost: the channel is out of step until the next handshake
 
 /-- `partition.replica` after `IsReady() && Connect()` succeeded: Consume, GetMessage, Replica -/
-def sendPhase (s : St) (f : Fault) : St × Out :=
+def sendPhase (cfg : Cfg) (s : St) (f : Fault) : St × Out :=
   let (s, seq) := consume s
   if seq < 0 then (s, .idle)
   else
     match s.L.get seq with
     | none => (ignoreMessage s seq, .ignored)
-    | some m => replicaSend s seq m f
+    | some m => replicaSend cfg s seq m f
 
 /-- `partition.replica` from a non-parked loop -/
 def replicaStep (cfg : Cfg) (s : St) (f : Fault) : St × Out :=
   let (s, ok) := isReady cfg s f
   if ok then
     let (s, ok) := connect s f
-    if ok then sendPhase s f else (s, .notready)
+    if ok then sendPhase cfg s f else (s, .notready)
   else (s, if s.susp then .parked else .notready)
 
 /-- `NewConsumerGroup` on an existing group directory: the ack is lifted to the queue's ack and the
